@@ -337,7 +337,7 @@ def run_C06(ctx):
     res = Result()
     rng = ctx.rng
     fn_partition_volume(ctx, res)
-    prof = {"p_fail": 0.15, "fail_kinds": ["transfer"], "kinds": ["transfer"], "nops": (1, 3), "p_autosplit": 0.7,
+    prof = {"p_fail": 0.15, "fail_kinds": ["transfer"], "kinds": ["transfer"], "nops": (1, 3), "p_autosplit": 0.7, "p_near_equal": 0.5,
             "max_volumes": [F(950), F(200), F(100), F(50), F(25, 2), F(5, 2), F(75, 2), F(7, 4), F(3)]}
     progs = corpus_progs(ctx) + [G.gen_worklist_program(rng, prof) for _ in range(ctx.n(120))]
     stateful(ctx, res, "transfer-split", progs, ["split"])
